@@ -85,11 +85,13 @@ example : judge { exRec with stale := some (exBytes.set! 15 7) } = [{ tag := "st
 example : (⟨0x00010012, 1, 8000⟩ : AbsWrite.Geom).block = 505 ∧ ceilToBlock 1000 505 = 1010 ∧
     framesOk ⟨0x00010012, 1, 8000⟩ 1000 1010 = true ∧ framesOk ⟨0x00010012, 1, 8000⟩ 1000 1515 = false ∧
     framesOk ⟨0x00010012, 1, 8000⟩ 1000 999 = false := by decide
-/-- the rate quantiser classes: SVX keeps 16 bits, IRCAM a binary32, HTK a period in 100 ns units and SDS one in ns (21 bits) —
+/-- the rate quantiser classes: SVX keeps 16 bits (saturating; exact since round 9: the old clause asked nothing above 65535),
+    IRCAM a binary32 (capped at 2^31 − 128; exact since round 9: the old clause asked nothing from 2^31 − 64 on), HTK a period in 100 ns units and SDS one in ns (21 bits) —
     the period clause is EXACT: 44100 Hz is period 226 = 44247 Hz and nothing else; 6 MHz is period 1 = 10 MHz; above the
     unit (period 0) and, for SDS, below 477 Hz (period beyond 21 bits) the field cannot express the rate: any positive rate -/
-example : rateOk 0x06 65537 1 = true ∧ rateOk 0x06 8000 8001 = false ∧ rateOk 0x0A 16777217 16777216 = true ∧
-    rateOk 0x0A 16777217 16777217 = false ∧ rateOk 0x10 44100 44247 = true ∧ rateOk 0x10 44100 44101 = false ∧
+example : rateOk 0x06 65537 65535 = true ∧ rateOk 0x06 65537 1 = false ∧ field16Old 65537 1 = true ∧ rateOk 0x06 8000 8001 = false ∧
+    rateOk 0x0A 16777217 16777216 = true ∧ rateOk 0x0A 16777217 16777217 = false ∧
+    rateOk 0x0A (2 ^ 31 - 1) (2 ^ 31 - 128) = true ∧ rateOk 0x0A (2 ^ 31 - 1) 1 = false ∧ float32CapOld (2 ^ 31 - 1) 1 = true ∧ rateOk 0x10 44100 44247 = true ∧ rateOk 0x10 44100 44101 = false ∧
     rateOk 0x10 44100 44100 = false ∧ rateOk 0x10 8000 8000 = true ∧ rateOk 0x10 8000 8001 = false ∧
     rateOk 0x10 6000000 10000000 = true ∧ rateOk 0x10 6000000 5000000 = false ∧ rateOk 0x10 10000001 16000 = true ∧
     rateOk 0x10 10000001 0 = false ∧ rateOk 0x11 44100 44101 = true ∧ rateOk 0x11 44100 44100 = false ∧
